@@ -307,7 +307,7 @@ type ErrEv struct {
 	// ("errors.IsNotFound" -> edges); the explicit form of a filter:
 	// `err != nil && !kerrors.IsNotFound(err)` is resource.IgnoreNotFound(err) != nil
 	PredTrue map[string][]Edge
-	Other    []string  // other uses (passed to event/condition constructors, ...)
+	Other    []string // other uses (passed to event/condition constructors, ...)
 }
 
 // Tested reports whether a nil test of the error was found.
@@ -315,10 +315,10 @@ func (e *ErrEv) Tested() bool { return len(e.OK) > 0 }
 
 // errPassThrough: single-error-argument wrappers that return nil iff (filtered) err is nil.
 var errPassThrough = map[string]string{
-	"github.com/crossplane/crossplane-runtime/pkg/errors.Wrap":            "",
-	"github.com/crossplane/crossplane-runtime/pkg/errors.Wrapf":           "",
-	"github.com/crossplane/crossplane-runtime/pkg/errors.WithMessage":     "",
-	"github.com/crossplane/crossplane-runtime/pkg/errors.WithMessagef":    "",
+	"github.com/crossplane/crossplane-runtime/pkg/errors.Wrap":             "",
+	"github.com/crossplane/crossplane-runtime/pkg/errors.Wrapf":            "",
+	"github.com/crossplane/crossplane-runtime/pkg/errors.WithMessage":      "",
+	"github.com/crossplane/crossplane-runtime/pkg/errors.WithMessagef":     "",
 	"github.com/crossplane/crossplane-runtime/pkg/resource.IgnoreNotFound": "IgnoreNotFound",
 	"github.com/crossplane/crossplane-runtime/pkg/resource.Ignore":         "Ignore",
 	"github.com/crossplane/crossplane-runtime/pkg/resource.IgnoreAny":      "IgnoreAny",
@@ -841,7 +841,6 @@ func ExitEdgesOf(body map[*ssa.BasicBlock]bool) []Edge {
 	})
 	return out
 }
-
 
 // LenCmp describes a comparison of len(x) with an integer constant.
 type LenCmp struct {
